@@ -236,4 +236,22 @@ example : refsOf { vars := [rB, rA, .prim "string".toList, rA] } = ["A".toList, 
 
 example : token [] { named := none, kind := .enum, canon := "c".toList, ekey := [] } = .enumK [] := by decide +kernel
 
+/-! ### title capture (finding F-C13-8) -/
+
+/-- a type-less inline schema titled like a component gets the component's type: its token is the component's -/
+theorem C13_cex_title_capture :
+    token [{ named := some "Data".toList, kind := .object, canon := "c1".toList }]
+      { named := none, kind := .other, canon := "c2".toList, title := some "Data".toList } = .named "Data".toList ∧
+    token [] { named := none, kind := .other, canon := "c2".toList, title := some "Data".toList } ≠ .named "Data".toList := by
+  decide +kernel
+
+/-- the title plays no part when no component has that name: the token is the one of the same occurrence without a title -/
+theorem C13_title_free (named : List Occ) (o : Occ) (t : Name) (h : ∀ c ∈ named, c.named ≠ some t) :
+    token named { o with named := none, title := some t } = token named { o with named := none, title := none } := by
+  have hf : (named.find? fun c => c.named == some t) = none := by
+    rw [List.find?_eq_none]
+    intro c hc
+    simpa using h c hc
+  simp [token, hf]
+
 end Oas3.C13
